@@ -15,7 +15,10 @@ def run(tier, seed, work):
     mc = [("MC_Bridge.tla", "MC_Bridge_deposits.cfg" if quick else "MC_Bridge_deposits_thorough.cfg")]
     per, depth, nj = (3, 40, 10) if quick else (25, 50, 12)
     js = bc.jobs("c03", seed, per, depth, nj) + bc.jobs("c03deep", seed + 5, max(1, per // 2), depth, 4, mode="deep")
-    groups = [("Trace_Bridge.tla", "Trace_Bridge_C03.cfg", js)]
+    # "at most once in the lifetime of the chain" spans restarts from an exported state: mixed histories with export / import
+    # cycles, continued on the imported chain (the deposited set must survive, re-submitted deposits must be refused)
+    rj = [("c03reimp_%d" % j, ["reimport", "-n", 2 if quick else 12, "-depth", 30, "-seed", seed * 1000 + 300 + j, "-mode", "bridge"]) for j in range(4 if quick else 8)]
+    groups = [("Trace_Bridge.tla", "Trace_Bridge_C03.cfg", js), ("Trace_Bridge.tla", "Trace_Bridge_C03.cfg", rj)]
     proofs = [verif.prove("Proofs_BridgeArith", work)]   # TLAPS: tax < value and >= 0 for every value and every safe parameter set
     return verif.run_stateful_check("C03", tier, seed, work, mc_list=mc, groups=groups, key_fn=bc.key,
                                     level="model_checking", extra_cov=dict(unbounded_lemmas=proofs), assumptions=bc.ASSUME, rule=RULE)
